@@ -31,7 +31,7 @@ Proof. intros b r u c H. exact (pinv_drop _ 1 H). Qed.
 
 (* the resize quirk: only with bytes left over from a fill that came back short, i.e. at the end of the stream *)
 Lemma pfill_buferr : forall m s, PInv s -> (0 < length (pavail s))%nat -> (pcnt s < bufsize)%nat ->
-  pfill bufsize m s = (PFault BufferErr, s) /\ punder s = [].
+  pfill bufsize m s = (PyFault BufferErr, s) /\ punder s = [].
 Proof.
   intros m s [H1 [H2 H3]] Ha Hc. unfold pfill.
   assert (E : (Nat.ltb 0 (length (pavail s)) && Nat.ltb (pcnt s) bufsize) = true) by lia.
@@ -47,7 +47,7 @@ Lemma pfill_ok : forall m s, PInv s -> (length (pavail s) = 0 \/ pcnt s = bufsiz
   PInv (filled s) /\ ppending (filled s) = ppending s /\
   length (pavail (filled s)) = (length (pavail s) + Nat.min (bufsize - length (pavail s)) (length (punder s)))%nat /\
   pfill bufsize m s =
-    (if Nat.ltb 0 m && Nat.ltb (length (pavail (filled s))) m then PEof else POk (filled s), filled s).
+    (if Nat.ltb 0 m && Nat.ltb (length (pavail (filled s))) m then PyEof else PyOk (filled s), filled s).
 Proof.
   intros m s [H1 [H2 H3]] Hc.
   assert (Hlen : length (pavail (filled s)) =
@@ -71,8 +71,8 @@ Qed.
 
 Lemma pfetch_spec : forall s, PInv s ->
   match ppending s with
-  | b :: r => exists s', pfetch bufsize s = (POk b, s') /\ PInv s' /\ ppending s' = r
-  | [] => exists s', pfetch bufsize s = (PEof, s')
+  | b :: r => exists s', pfetch bufsize s = (PyOk b, s') /\ PInv s' /\ ppending s' = r
+  | [] => exists s', pfetch bufsize s = (PyEof, s')
   end.
 Proof.
   intros s Hinv. unfold pfetch, ppending. destruct (pavail s) as [|b r] eqn:Ea.
@@ -98,8 +98,8 @@ Qed.
 
 Lemma pvar_spec : forall fuel s res sh, PInv s -> (length (ppending s) < fuel)%nat ->
   match pvdec (ppending s) with
-  | Some (v, r) => exists s', pvar bufsize fuel s res sh = (POk (res + v * 2 ^ sh), s') /\ PInv s' /\ ppending s' = r
-  | None => exists s', pvar bufsize fuel s res sh = (PEof, s')
+  | Some (v, r) => exists s', pvar bufsize fuel s res sh = (PyOk (res + v * 2 ^ sh), s') /\ PInv s' /\ ppending s' = r
+  | None => exists s', pvar bufsize fuel s res sh = (PyEof, s')
   end.
 Proof.
   induction fuel as [|fuel IH]; intros s res sh Hinv Hf; [lia|].
@@ -119,7 +119,7 @@ Qed.
 (* ---------- read(struct) ---------- *)
 
 Lemma punpack_spec : forall k s, PInv s -> (k <= length (pavail s))%nat ->
-  exists s', punpack k s = (POk (le_dec (firstn k (pavail s))), s') /\ PInv s' /\
+  exists s', punpack k s = (PyOk (le_dec (firstn k (pavail s))), s') /\ PInv s' /\
              take (N.of_nat k) (ppending s) = Some (firstn k (pavail s), ppending s').
 Proof.
   intros k s Hinv Hk. unfold punpack.
@@ -130,9 +130,9 @@ Qed.
 
 (* shared by read and read_view: refill so that c bytes are buffered *)
 Lemma pfill_for : forall c s, PInv s -> (length (pavail s) < c)%nat -> (c <= bufsize)%nat ->
-  (exists s1, pfill bufsize c s = (POk s1, s1) /\ PInv s1 /\ ppending s1 = ppending s /\ (c <= length (pavail s1))%nat)
+  (exists s1, pfill bufsize c s = (PyOk s1, s1) /\ PInv s1 /\ ppending s1 = ppending s /\ (c <= length (pavail s1))%nat)
   \/ ((N.of_nat (length (ppending s)) < N.of_nat c) /\
-      exists f s1, pfill bufsize c s = (f, s1) /\ (f = PEof \/ f = PFault BufferErr)).
+      exists f s1, pfill bufsize c s = (f, s1) /\ (f = PyEof \/ f = PyFault BufferErr)).
 Proof.
   intros c s Hinv Hlt Hcb.
   destruct (Nat.eq_dec (length (pavail s)) 0) as [H0|H0];
@@ -153,8 +153,8 @@ Qed.
 
 Lemma pread_fixed_spec : forall k s, PInv s -> (k <= bufsize)%nat ->
   match take (N.of_nat k) (ppending s) with
-  | Some (h, t) => exists s', pread_fixed bufsize k s = (POk (le_dec h), s') /\ PInv s' /\ ppending s' = t
-  | None => exists f s', pread_fixed bufsize k s = (f, s') /\ (f = PEof \/ f = PFault BufferErr)
+  | Some (h, t) => exists s', pread_fixed bufsize k s = (PyOk (le_dec h), s') /\ PInv s' /\ ppending s' = t
+  | None => exists f s', pread_fixed bufsize k s = (f, s') /\ (f = PyEof \/ f = PyFault BufferErr)
   end.
 Proof.
   intros k s Hinv Hk. unfold pread_fixed.
@@ -172,8 +172,8 @@ Qed.
 
 Lemma pread_bytes_spec : forall n s, PInv s ->
   match take n (ppending s) with
-  | Some (h, t) => exists s', pread_bytes bufsize n s = (POk h, s') /\ PInv s' /\ ppending s' = t
-  | None => exists f s', pread_bytes bufsize n s = (f, s') /\ (f = PEof \/ f = PFault BufferErr)
+  | Some (h, t) => exists s', pread_bytes bufsize n s = (PyOk h, s') /\ PInv s' /\ ppending s' = t
+  | None => exists f s', pread_bytes bufsize n s = (f, s') /\ (f = PyEof \/ f = PyFault BufferErr)
   end.
 Proof.
   intros n s Hinv. unfold pread_bytes.
@@ -215,8 +215,8 @@ Definition pop_ok (op : pop) : Prop := match op with PFixed k => (k <= bufsize)%
 
 Theorem pstep_refines : forall s op, PInv s -> pop_ok op ->
   match pastep (ppending s) op with
-  | Some (v, r) => exists s', pstep bufsize s op = (POk v, s') /\ PInv s' /\ ppending s' = r
-  | None => exists f s', pstep bufsize s op = (f, s') /\ (f = PEof \/ f = PFault BufferErr)
+  | Some (v, r) => exists s', pstep bufsize s op = (PyOk v, s') /\ PInv s' /\ ppending s' = r
+  | None => exists f s', pstep bufsize s op = (f, s') /\ (f = PyEof \/ f = PyFault BufferErr)
   end.
 Proof.
   intros s op Hinv Hop. destruct op as [| |k|n]; cbn [pastep pstep].
@@ -260,7 +260,7 @@ Qed.
 
 (* every outcome of the machine that is not a value is one of the two exceptions: no stale byte, no fuel exhaustion *)
 Theorem py_reader_outcomes : forall bufsize input ops, (0 < bufsize)%nat -> Forall (pop_ok bufsize) ops ->
-  Forall (fun r => match r with POk _ | PEof | PFault BufferErr => True | _ => False end)
+  Forall (fun r => match r with PyOk _ | PyEof | PyFault BufferErr => True | _ => False end)
          (prun bufsize (pin_init input) ops).
 Proof.
   intros bufsize input ops Hb Hops. pose proof (py_reader_refines bufsize input ops Hb Hops) as H.
@@ -331,7 +331,7 @@ Fixpoint paexact (l : list N) (ops : list pop) : option (list rval) :=
 
 Theorem parun_truncated : forall ops data vs p q,
   paexact data ops = Some vs -> data = p ++ q -> q <> [] ->
-  exists k, (k <= length vs)%nat /\ parun p ops = map POk (firstn k vs) ++ [PEof].
+  exists k, (k <= length vs)%nat /\ parun p ops = map PyOk (firstn k vs) ++ [PyEof].
 Proof.
   induction ops as [|op ops IH]; intros data vs p q Hex Hd Hq.
   - cbn in Hex. destruct data; [|discriminate]. symmetry in Hd. apply app_eq_nil in Hd.
@@ -350,14 +350,14 @@ Qed.
 Theorem py_truncated : forall bufsize ops data vs p q, (0 < bufsize)%nat -> Forall (pop_ok bufsize) ops ->
   paexact data ops = Some vs -> data = p ++ q -> q <> [] ->
   exists k, (k <= length vs)%nat /\
-            map pnorm (prun bufsize (pin_init p) ops) = map POk (firstn k vs) ++ [PEof].
+            map pnorm (prun bufsize (pin_init p) ops) = map PyOk (firstn k vs) ++ [PyEof].
 Proof.
   intros bufsize ops data vs p q Hb Hops Hex Hd Hq.
   destruct (parun_truncated ops data vs p q Hex Hd Hq) as [k [Hk Hrun]].
   exists k. split; [assumption|]. rewrite py_reader_refines by assumption. assumption.
 Qed.
 
-Lemma parun_complete : forall ops data vs, paexact data ops = Some vs -> parun data ops = map POk vs.
+Lemma parun_complete : forall ops data vs, paexact data ops = Some vs -> parun data ops = map PyOk vs.
 Proof.
   induction ops as [|op ops IH]; intros data vs H.
   - cbn in H. destruct data; [|discriminate]. injection H as <-. reflexivity.
@@ -366,7 +366,7 @@ Proof.
     cbn [parun map]. rewrite E, (IH r vs' E2). reflexivity.
 Qed.
 
-Lemma map_pnorm_all_ok : forall (l : list (pres rval)) vs, map pnorm l = map POk vs -> l = map POk vs.
+Lemma map_pnorm_all_ok : forall (l : list (pyres rval)) vs, map pnorm l = map PyOk vs -> l = map PyOk vs.
 Proof.
   induction l as [|x l IH]; intros vs H; destruct vs as [|v vs]; try discriminate; [reflexivity|].
   cbn [map] in *. injection H as Hx Hl. rewrite (IH vs Hl). f_equal.
@@ -375,7 +375,7 @@ Qed.
 
 (* on the complete input every value is returned, with no exception at all (the quirk cannot fire) *)
 Theorem py_complete : forall bufsize ops data vs, (0 < bufsize)%nat -> Forall (pop_ok bufsize) ops ->
-  paexact data ops = Some vs -> prun bufsize (pin_init data) ops = map POk vs.
+  paexact data ops = Some vs -> prun bufsize (pin_init data) ops = map PyOk vs.
 Proof.
   intros bufsize ops data vs Hb Hops H. apply map_pnorm_all_ok.
   rewrite py_reader_refines by assumption. apply parun_complete. assumption.
